@@ -64,7 +64,9 @@ PROPERTIES = {
         "runs": {
             "quick": [H("HarnessC04a", b(K=4, NOPS=3), sample_every=200), H("HarnessC04a", b(K=3, NOPS=3, BF=3))] + [H("HarnessC04b", b(N=5, K=1, NOPS=2, HREQ=2, LPAT=p)) for p in (18, 6, 19, 63)] + [H("HarnessC04a", {**b(K=k, NOPS=3), "SEQ.h": q}, sample_every=200) for k, q in ((5, 10),)] + [H("HarnessC04b", {**b(N=5, K=2, NOPS=3, HREQ=2, LPAT=p), "SEQ.h": q}, sample_every=20) for p in (18, 6, 19, 63) for q in (20, 21)] + [H("HarnessC04b", b(N=17, K=1, NOPS=2, Lmax=4, LRULER=1, CONCRETEKEYS=1), sample_every=10, max_steps=30000000)] +
                      # all seven operation kinds (incl. clone, go back to the first persisted version, restart with an empty cache) through a cache
-                     [H("HarnessC04a", b(K=4, NOPS=7, CACHE=1), sample_every=200)],
+                     [H("HarnessC04a", b(K=4, NOPS=7, CACHE=1), sample_every=200)] +
+                     # the v1marshaler format under a nil-sensitive marshaler (nil and empty lists encode differently, as in JSON): height-2 bases
+                     [H("HarnessC04b", b(N=5, K=1, NOPS=2, HREQ=2, LPAT=p, FMT=1)) for p in (18, 6)],
             "thorough": [H("HarnessC04b", b(N=5, K=1, NOPS=2, HREQ=2), sample_every=500), H("HarnessC04a", b(K=4, NOPS=3), sample_every=200), H("HarnessC04a", b(K=3, NOPS=4)), H("HarnessC04a", b(K=3, NOPS=3, BF=3))],
         },
         "must_reach": ["C04.height-rule", "C04.same-link"],
@@ -75,7 +77,7 @@ PROPERTIES = {
         "runs": {
             "quick": [H("HarnessC05a", b(K=2, K2=1, FMT=0, CACHE=0)), H("HarnessC05a", b(K=2, K2=1, FMT=1, CACHE=1)), H("HarnessC05a", b(K=2, K2=1, FMT=2, CACHE=0)), H("HarnessC05a", b(K=2, K2=1, FMT=1, CACHE=0)), H("HarnessC05a", b(K=2, K2=1, FMT=2, CACHE=1)), H("HarnessC05a", b(K=1, K2=2, FMT=0, CACHE=1)), H("HarnessC05a", b(K=2, K2=2, FMT=0, CACHE=1), sample_every=500),
                       # values whose encoding may be empty (raw-bytes codec), decoded from the store
-                      H("HarnessC05e", b(N=3, CACHE=0)), H("HarnessC05e", b(N=3, CACHE=1, FRESHCACHE=1)),
+                      H("HarnessC05e", b(N=3, CACHE=0)), H("HarnessC05e", b(N=3, CACHE=1, FRESHCACHE=1)), H("HarnessC05e", b(N=3, CACHE=0, REUSE=1)),
                       H("HarnessC05a", b(N0=3, K=0, K2=1, FMT=0, CACHE=0), sample_every=50), H("HarnessC05a", b(N0=3, K=0, K2=1, FMT=0, CACHE=1), sample_every=50)],
             "thorough": [H("HarnessC05a", b(K=3, K2=1, FMT=f, CACHE=0), sample_every=200) for f in (0, 1, 2)] + [H("HarnessC05a", b(K=3, K2=1, FMT=0, CACHE=1), sample_every=200), H("HarnessC05e", b(N=4, CACHE=0))],
         },
@@ -187,22 +189,26 @@ PROPERTIES = {
                       # mixed residency on a height-3 tree: one successful symbolic insert/update after the re-load (its path is in memory, the rest still in the store), then a delete under every load/compare fault position
                       H("HarnessC12a", b(N=7, PRE=1, F=7, OPMASK=2, NOPROBE=1, CONCRETEKEYS=1, LRULER=1, **{"SEQ.pre": 0}), sample_every=500),
                       # cursor Min / Max (operations 7, 8) under every load fault, retried on the same cursor, on the height-3 tree
-                      H("HarnessC12a", b(N=7, PRE=0, F=5, OPMASK=384, NOPROBE=1, CONCRETEKEYS=1, LRULER=1), sample_every=20)],
+                      H("HarnessC12a", b(N=7, PRE=0, F=5, OPMASK=384, NOPROBE=1, CONCRETEKEYS=1, LRULER=1), sample_every=20),
+                      # cursor Forward / Backward (operations 9, 10) from the entry a fault-free Ceil(k) found, under every load fault, retried on the same cursor
+                      H("HarnessC12a", b(N=7, PRE=0, F=5, OPMASK=1536, NOPROBE=1, CONCRETEKEYS=1, LRULER=1), sample_every=20), H("HarnessC12a", b(N=3, PRE=0, F=3, OPMASK=1536, NOPROBE=1), sample_every=50)],
             # (N=3,PRE=1,F=4 did not finish within 25 minutes together with the rest: not registered)
             "thorough": [H("HarnessC12a", b(N=3, PRE=0, F=5), sample_every=1000), H("HarnessC12a", b(N=2, PRE=1, F=3), sample_every=1000)],
         },
-        "must_reach": ["C12.contents-unchanged", "C12.size-unchanged", "C12.retry-result", "C12.contents-after-retry"],
-        "bounds_statement": "tree of N ascending entries persisted and re-loaded (every node behind a Load), PRE successful modifications (dirty in-memory path above persisted children), then one of Insert/Delete/Get/Iter/Clone/Cursor(Ceil,Forward,Backward)/DiffIter/Cursor.Min/Cursor.Max with a fault at the n-th Persist.Load or the n-th KeyCompare call of that operation (n < F); after an error: Size, Height, full Iter, Get(probe) against the pre-operation model, then the same call retried without the fault",
+        "must_reach": ["C12.contents-unchanged", "C12.size-unchanged", "C12.retry-result", "C12.contents-after-retry", "C12.retried-navigation-position", "C12.retried-step-position"],
+        "bounds_statement": "tree of N ascending entries persisted and re-loaded (every node behind a Load), PRE successful modifications (dirty in-memory path above persisted children), then one of Insert/Delete/Get/Iter/Clone/Cursor(Ceil,Forward,Backward)/DiffIter/Cursor.Min/Cursor.Max/one Cursor.Forward or Backward step from the entry Ceil(k) found, with a fault at the n-th Persist.Load or the n-th KeyCompare call of that operation (n < F); after an error: Size, Height, full Iter, Get(probe) against the pre-operation model, then the same call retried without the fault",
         "outside": ["faults in Marshal (only reached from MakeRoot with this key type)", "two simultaneous faults", "panics raised by validateNode when KeyCompare fails (the statement is about calls that return an error)"],
         "assumptions": COMMON_ASSUMPTIONS,
     },
     "C13": {
         "runs": {
-            "quick": [H("HarnessC13a", b(N=3, B=1, RELOAD=1)), H("HarnessC13a", b(N=3, B=1, RELOAD=0)), H("HarnessC13a", b(N=2, B=2, RELOAD=0)), H("HarnessC13a", b(N=2, B=2, RELOAD=1))] + [H("HarnessC13a", b(N=20, B=1, RELOAD=1, ASC=1, Lmax=4, LRULER=1, CONCRETEKEYS=1), sample_every=10, max_steps=30000000)],
-            "thorough": [H("HarnessC13a", b(N=3, B=2, RELOAD=1), sample_every=200), H("HarnessC13a", b(N=3, B=1, RELOAD=0)), H("HarnessC13a", b(N=4, B=1, RELOAD=1), sample_every=200)],
+            "quick": [H("HarnessC13a", b(N=3, B=1, RELOAD=1)), H("HarnessC13a", b(N=3, B=1, RELOAD=0)), H("HarnessC13a", b(N=2, B=2, RELOAD=0)), H("HarnessC13a", b(N=2, B=2, RELOAD=1))] + [H("HarnessC13a", b(N=20, B=1, RELOAD=1, ASC=1, Lmax=4, LRULER=1, CONCRETEKEYS=1), sample_every=10, max_steps=30000000)] +
+                     # the v1marshaler node format, both decode paths (a re-loaded node must still know the name it was loaded from)
+                     [H("HarnessC13a", b(N=3, B=1, RELOAD=1, FMT=f)) for f in (1, 2)],
+            "thorough": [H("HarnessC13a", b(N=3, B=2, RELOAD=1, FMT=f), sample_every=200) for f in (1, 2)] + [H("HarnessC13a", b(N=3, B=2, RELOAD=1), sample_every=200), H("HarnessC13a", b(N=3, B=1, RELOAD=0)), H("HarnessC13a", b(N=4, B=1, RELOAD=1), sample_every=200)],
         },
         "must_reach": ["C13.unmodified-clone-no-writes", "C13.written-is-reachable", "C13.rewrite-only-in-range", "C13.write-count", "C13.clean-implies-unchanged", "C13.clone-clean-implies-unchanged"],
-        "bounds_statement": "V0 = N arbitrary inserts, persisted (re-loaded or not), then B symbolic modifications, then the second persist's Store log",
+        "bounds_statement": "V0 = N arbitrary inserts, persisted (re-loaded or not), then B symbolic modifications (no-ops included), then the second persist's Store log; binary format, and (FMT) both v1marshaler decode paths",
         "assumptions": COMMON_ASSUMPTIONS,
     },
     "C16": {
@@ -210,22 +216,24 @@ PROPERTIES = {
             "quick": [H("HarnessC16a", b(N=5), sample_every=200), H("HarnessC16a", b(N=4, BF=3))] + [H("HarnessC16a", b(N=40, Lmax=5, LRULER=1, CONCRETEKEYS=1), sample_every=20, max_steps=30000000)] +
                      # KEEP=1: the operation runs on the in-process handle just persisted (root is a name, nothing in memory: the count includes the top node);
                      # Lmax=4 gives a top node with two keys, so deleting one of them keeps the height
-                     [H("HarnessC16a", b(N=40, Lmax=lm, LRULER=1, CONCRETEKEYS=1, KEEP=1), sample_every=20, max_steps=30000000) for lm in (4, 5)] + [H("HarnessC16a", b(N=4, KEEP=1), sample_every=100)],
-            "thorough": [H("HarnessC16a", b(N=6), sample_every=2000), H("HarnessC16a", b(N=5, KEEP=1), sample_every=500), H("HarnessC16a", b(N=4, BF=3)), H("HarnessC16a", b(N=70, Lmax=6, LRULER=1, CONCRETEKEYS=1, KEEP=1), sample_every=50, max_steps=60000000)],
+                     [H("HarnessC16a", b(N=40, Lmax=lm, LRULER=1, CONCRETEKEYS=1, KEEP=1), sample_every=20, max_steps=30000000) for lm in (4, 5)] + [H("HarnessC16a", b(N=4, KEEP=1), sample_every=100), H("HarnessC16a", b(N=3, GET2=1), sample_every=200)],
+            "thorough": [H("HarnessC16a", b(N=4, GET2=1), sample_every=1000), H("HarnessC16a", b(N=6), sample_every=2000), H("HarnessC16a", b(N=5, KEEP=1), sample_every=500), H("HarnessC16a", b(N=4, BF=3)), H("HarnessC16a", b(N=70, Lmax=6, LRULER=1, CONCRETEKEYS=1, KEEP=1), sample_every=50, max_steps=60000000)],
         },
-        "must_reach": ["C16.get-reads-path", "C16.insert-reads-two-paths", "C16.delete-reads-two-paths", "C16.loadmast-reads-top-only"],
-        "bounds_statement": "persisted trees of N ascending entries (all layer assignments, heights 0..2; directed trees of height 4..6), cache-less; one Get/Insert/Delete with a symbolic key, on a clone of the re-loaded tree or (KEEP) on the in-process handle just persisted, whose reads include the top node",
+        "must_reach": ["C16.get-reads-path", "C16.insert-reads-two-paths", "C16.delete-reads-two-paths", "C16.loadmast-reads-top-only", "C16.clone-after-op-reads-top-only", "C16.cursor-after-op-reads-top-only", "C16.get-after-op-reads-path"],
+        "bounds_statement": "persisted trees of N ascending entries (all layer assignments, heights 0..2; directed trees of height 4..6), cache-less; one Get/Insert/Delete with a symbolic key, on a clone of the re-loaded tree or (KEEP) on the in-process handle just persisted, whose reads include the top node; then Clone, Cursor and a second Get (another symbolic key) on the handle the operation left behind (in-memory path nodes above persisted children)",
         "assumptions": COMMON_ASSUMPTIONS,
     },
     "C19": {
         "runs": {
             "quick": [H("HarnessC19a", b(N=4, L=4), sample_every=100), H("HarnessC19a", b(N=3, L=3, BF=3)), H("HarnessC19a", b(N=4, L=3, FMT=1), sample_every=20), H("HarnessC19a", b(N=4, L=3, FMT=2), sample_every=20),
                       # a root without a top node (only the format clause applies); a loader that shares the writer's warm node cache
-                      H("HarnessC19a", b(N=0, L=3)), H("HarnessC19a", b(N=1, L=5), sample_every=20), H("HarnessC19a", b(N=2, L=6), sample_every=100), H("HarnessC19a", b(N=4, L=3, CACHE=1), sample_every=50), H("HarnessC19a", b(N=3, L=3, CACHE=1, FMT=1), sample_every=20)],
-            "thorough": [H("HarnessC19a", b(N=5, L=5), sample_every=3000), H("HarnessC19a", b(N=3, L=3, BF=3)), H("HarnessC19a", b(N=5, L=3, CACHE=1), sample_every=3000), H("HarnessC19a", b(N=5, L=3, FMT=1), sample_every=1000), H("HarnessC19a", b(N=5, L=3, FMT=2), sample_every=1000)],
+                      H("HarnessC19a", b(N=0, L=3)), H("HarnessC19a", b(N=1, L=5), sample_every=20), H("HarnessC19a", b(N=2, L=6), sample_every=100), H("HarnessC19a", b(N=4, L=3, CACHE=1), sample_every=50), H("HarnessC19a", b(N=3, L=3, CACHE=1, FMT=1), sample_every=20)] +
+                     # the same perturbations on a root whose recorded Size is arbitrary as well (any 64-bit value, 0 included)
+                     [H("HarnessC19a", b(N=3, L=4, SIZEPERT=1), sample_every=100), H("HarnessC19a", b(N=3, L=3, SIZEPERT=1, FMT=1), sample_every=50)],
+            "thorough": [H("HarnessC19a", b(N=4, L=4, SIZEPERT=1), sample_every=1000), H("HarnessC19a", b(N=5, L=5), sample_every=3000), H("HarnessC19a", b(N=3, L=3, BF=3)), H("HarnessC19a", b(N=5, L=3, CACHE=1), sample_every=3000), H("HarnessC19a", b(N=5, L=3, FMT=1), sample_every=1000), H("HarnessC19a", b(N=5, L=3, FMT=2), sample_every=1000)],
         },
         "must_reach": ["C19.rejected.unknown-format", "C19.rejected.unknown-format-empty-root", "C19.rejected.layer-below-height", "C19.rejected.top-missing", "C19.rejected.count-mismatch", "C19.rejected.not-ascending", "C19.rejected.not-ascending-under-configured-order", "C19.rejected.tie-under-configured-order", "C19.rejected.undecodable"],
-        "bounds_statement": "correctly persisted tree of N ascending symbolic entries, then one perturbation: unknown NodeFormat (also on a root without a top node, and with the loader sharing the writer's warm cache); symbolic Height (<=4); missing top node; well-formed top node with one value too many / one link too many / two adjacent keys swapped; loader KeyCompare reversed; top node replaced by an arbitrary undecodable buffer of <= L symbolic bytes each < 10 (single-byte varints)",
+        "bounds_statement": "correctly persisted tree of N ascending symbolic entries, then one perturbation: unknown NodeFormat (also on a root without a top node, and with the loader sharing the writer's warm cache); symbolic Height (<=4); missing top node; well-formed top node with one value too many / one link too many / two adjacent keys swapped; loader KeyCompare reversed; top node replaced by an arbitrary undecodable buffer of <= L symbolic bytes each < 10 (single-byte varints); SIZEPERT: each of these combined with an arbitrary recorded Size",
         "outside": ["BranchFactor perturbation (the symbolic key type's layer does not depend on the branch factor; integer layers are covered in C14)", "buffers longer than L or with multi-byte varints"],
         "assumptions": COMMON_ASSUMPTIONS,
     },
